@@ -15,6 +15,7 @@ func init() {
 			"(C02-d) the admin-policy matchers run everything but the PeerType test for non-IP peers only. " +
 			"(C02-sib) the eight rule-iteration methods (ANP/BANP x ingress/egress x set/query) agree: each ranges over its direction's rules and hands peers, ports, action, the peers in role order and the baseline flag to the helper of its direction. " +
 			"(C02-canon) a set whose all-flag is raised has an empty protocol map - Intersection of the egress and ingress verdicts relies on it; (C02-pure) no unreviewed long-lived write on a query path (a memo keyed too coarsely gives one pair the verdict of another). " +
+			"(C02-role-*) endpoint roles as in C01: a rule's From meets the source, To the destination, and the ports of a rule - named ports included - are resolved on the destination pod in both directions. " +
 			"NOT decided: that the sets computed are the right sets; the behaviour of sort.Slice itself."
 		rules.SortedTypestate(p, r)
 		rules.PriorityComparator(p, r)
